@@ -45,7 +45,7 @@ func checkC11(c *Ctx) {
 		for _, b := range backends {
 			c.c07Batch(b)
 		}
-	}, func(o *coreObl) (string, bool) { return "R11.6", o.Rule == "R07.4" && strings.HasSuffix(o.Construct, ".Len") })
+	}, func(o *coreObl) (string, bool) { return "R11.6", isLenObligation(o) })
 	c.borrow("C12", func() { c.c12Cleanup() }, func(o *coreObl) (string, bool) {
 		if o.Rule != "R12.1" {
 			return "", false
